@@ -2,6 +2,10 @@ import I18n.Lemmas.HdrHeaders
 import I18n.Lemmas.HdrMime
 import I18n.Lemmas.HdrAddr
 import I18n.Lemmas.DateTags
+import I18n.Lemmas.HdrNoCrash
+import I18n.Lemmas.HdrParse
+import I18n.Lemmas.HdrExempt
+import I18n.Props.C20
 /-
 # C15 — header diagnostics match the documented conditions
 
@@ -77,5 +81,110 @@ theorem header_tags_eq (x : Ext) (cs : CharsetCheck) (now : Int) (f : File) (ts 
           unfold ContentTypeRule CtOneRule; rfl
         rw [hC, hD, hCT]
         simp only [or_assoc]
+
+/-! ## no crash -/
+
+/-- **hdr_nocrash**: with the library results at hand and a total charset fragment, no Python exception escapes the header
+    stages: the closed error set is empty (`get_character_name` is total on what `find_unusual_characters` reports —
+    `unusual_names_total`; an unparsable URL counts as "no scheme" — fix 2f85d76; `check_dates` — C18 `NoCrash`) -/
+theorem hdr_nocrash (x : Ext) (cs : CharsetCheck) (hcs : ∀ n, ∃ r, cs n = .ok r) (now : Int) (f : File) :
+    checkAll x cs now f ≠ none := by
+  have := checkAll_isSome x cs hcs now f
+  intro h; rw [h] at this; cases this
+
+/-- the same with C20's charset fragment plugged in: total whenever the codecs behave (`Charset.check_total`) -/
+theorem hdr_nocrash_charset (x : Ext) (env : Charset.Env) (characters : Option (Option (List (List Nat))))
+    (htbl : env.tbl = Generated.Charset.portableEncodings) (hc2e : env.c2e = Generated.Charset.pycodecToEncoding)
+    (henc : ∀ enc chars, characters = some (some chars) → Charset.EncodeOk (env.encode enc) chars)
+    (now : Int) (f : File) :
+    checkAll x (fun n => Charset.checkCharset env n f.kind.isTemplate characters) now f ≠ none :=
+  hdr_nocrash x _ (fun n => I18n.Props.C20.check_total env n f.kind.isTemplate characters htbl hc2e henc) now f
+
+/-- a Report-Msgid-Bugs-To value without an address whose URL cannot be parsed is reported, not crashed on -/
+theorem unparsable_url_reported (x : Ext) (v : Str) (h1 : ¬ HasAt (x.parseaddr v)) (h2 : x.urlScheme v = none) :
+    reportOne x v = [⟨"invalid-report-msgid-bugs-to", [.str v]⟩] := by
+  have : hasAt (x.parseaddr v) = false := by
+    cases h : hasAt (x.parseaddr v) with
+    | false => rfl
+    | true => exact absurd ((hasAt_iff _).1 h) h1
+  rw [reportOne_eq, this, h2]; rfl
+
+/-! ## the field grammar (`gettext.parse_header`) -/
+
+/-- **parse_header_spec** (lines): the lines are the `\n`-separated pieces of the text, a final `\n` terminating the last -/
+theorem parse_header_lines (s : Str) :
+    parseHeader s = (headerLines s).map parseLine ∧ LinesOf s (headerLines s) := ⟨rfl, headerLines_spec s⟩
+
+/-- **parse_header_spec** (fields): a line becomes the field `k: v` iff `k` is a non-empty run of printable ASCII other than
+    `:`, followed by `:`, and `v` is the rest stripped of blanks and tabs; the split is unique -/
+theorem parse_header_field (l k v : Str) : parseLine l = .field k v ↔ FieldLine l k v := parseLine_field_iff l k v
+
+/-- **parse_header_spec** (strays): every other line is kept unchanged as a stray line -/
+theorem parse_header_stray (l s : Str) : parseLine l = .stray s ↔ (s = l ∧ ¬ ∃ k v, FieldLine l k v) := parseLine_stray_iff l s
+
+/-- the dictionary `check_headers` builds answers `metadata[k]` with the values of the field lines named `k`, in order -/
+theorem metadata_lookup (ls : List Line) (k : String) : (buildMeta ls []).getS k = vals (fieldLines ls) k := meta_getS ls k
+
+/-! ## leaf scanners against their regular expressions' languages -/
+
+/-- **domain classification**: the scanner for `domains._is_special` (alternatives regenerated from the source) accepts a
+    lower-cased domain iff it is a documented special-use name or ends in `.`+name after at least one more character -/
+theorem special_domain_iff (d : Str) : Domains.isSpecialLowered d = true ↔ SpecialDomain d := Domains.isSpecialLowered_iff d
+
+theorem domains_pin : Generated.HeaderFields.specialDomains = specialDomains := Domains.domains_pin
+
+/-- `email.rsplit('@', 1)[1]`: what follows the last `@` -/
+theorem email_domain (addr : Str) (h : '@' ∈ addr) (dom : Str) : DomainOf addr dom ↔ dom = Domains.domainOf addr :=
+  Domains.DomainOf_iff addr dom h
+
+theorem special_email_iff (x : Ext) (addr : Str) (h : '@' ∈ addr) :
+    Domains.isEmailInSpecialDomain x.db.lower addr = true ↔ SpecialEmail x addr := Domains.isEmailInSpecialDomain_iff x addr h
+
+theorem dotless_email_iff (addr : Str) (h : '@' ∈ addr) :
+    Domains.isEmailInDotlessDomain addr = true ↔ DotlessEmail addr := Domains.isEmailInDotlessDomain_iff addr h
+
+/-- the order of precedence of the address verdicts is the documented one -/
+theorem address_verdict (x : Ext) (boiler : List String) (addr : Str) (h : HasAt addr) (v : AddrVerdict) :
+    addrVerdict x boiler addr = v ↔ AddrIs x boiler addr v := addrVerdict_iff x boiler addr h v
+
+/-- **content_type_form**: the scanner for `(\Atext/plain; )?\bcharset=([^\s;]+)\Z` under `re.search` -/
+theorem content_type_form (db : UDB) (ct : Str) :
+    (∀ full enc, matchContentType db ct = some (full, enc) ↔ CharsetOf db ct full enc) ∧
+    (matchContentType db ct = none ↔ ¬ ∃ full enc, CharsetParam db ct full enc) :=
+  ⟨matchContentType_some_iff db ct, matchContentType_none_iff db ct⟩
+
+/-- **conflict_marker_spec** -/
+theorem conflict_marker_spec (l : Str) : isConflictMarker l = true ↔ ConflictMarker l := isConflictMarker_iff l
+
+/-! ## pins: what the hand-written scanners and the rule set assume of the source, regenerated on every run -/
+
+theorem source_pins :
+    Generated.HeaderFields.dedicated = ownRules ∧
+    Generated.HeaderFields.mimeVersionGood = "1.0" ∧ Generated.HeaderFields.cteGood = "8bit" ∧
+    Generated.HeaderFields.charsetBoilerplate = "CHARSET" ∧
+    Generated.HeaderFields.projectBoilerplate = ["PACKAGE VERSION", "PROJECT VERSION"] ∧
+    Generated.HeaderFields.emptyScheme = "" ∧
+    Generated.HeaderFields.reportBoilerplate = ["EMAIL@ADDRESS"] ∧
+    Generated.HeaderFields.translatorBoilerplate = ["EMAIL@ADDRESS"] ∧
+    Generated.HeaderFields.teamBoilerplate = ["EMAIL@ADDRESS", "LL@li.org"] ∧
+    Generated.HeaderFields.headerFlag = "fuzzy" ∧
+    Generated.HeaderFields.commentPatterns = ["\\bCopyright \\S+ YEAR\\b", "\\bPACKAGE package\\b", "\\bTHE PACKAGE'S COPYRIGHT HOLDER\\b"] ∧
+    Generated.HeaderFields.commentPatternsTranslated = ["(?<=>), YEAR\\b", "<EMAIL@ADDRESS>", "\\bFIRST AUTHOR\\b"] ∧
+    Generated.HeaderFields.contentTypeRegex = "(\\Atext/plain; )?\\bcharset=([^\\s;]+)\\Z" ∧
+    Generated.HeaderFields.projectNameRegex = "[^_\\d\\W]" ∧ Generated.HeaderFields.projectVersionRegex = "[0-9]" ∧
+    Generated.HeaderFields.fieldNameRegex = "^[\\x21-\\x39\\x3B-\\x7E]+$" ∧ Generated.HeaderFields.fieldNameRegexMethod = "match" ∧
+    Generated.HeaderFields.conflictRegex = "^#-#-#-#-#  .+  #-#-#-#-#$" ∧ Generated.HeaderFields.conflictRegexMethod = "search" ∧
+    Generated.HeaderFields.parseHeaderConsts = ["\n", "", ":", " \t"] ∧
+    Generated.HeaderFields.lineBreaks = [0xA, 0xB, 0xC, 0xD, 0x1C, 0x1D, 0x1E, 0x85, 0x2028, 0x2029] ∧
+    Generated.HeaderFields.unusualUnlessBracket = 0x1B ∧ Generated.HeaderFields.unusualAfterWord = 0xBF ∧
+    Generated.HeaderFields.unusualAlways = [(0x0, 0x8), (0xB, 0x1A), (0x1C, 0x1F), (0x7F, 0x9F), (0xFEFF, 0xFEFF), (0xFFFD, 0xFFFF)] := by
+  decide
+
+/-- the registered names differ pairwise even up to case, so "the registered name equal up to case" is well defined -/
+theorem registry_case_distinct :
+    ((Generated.HeaderFields.headerFields.map fun s => asciiLower s.toList).Nodup) := by decide
+
+/-- `get_character_name` has a name for every character `find_unusual_characters` can report -/
+theorem unusual_names_total : candidates.all (fun n => (nameOfNat n).isSome) = true := Hdr.unusual_names_total
 
 end I18n.Props.C15
